@@ -83,6 +83,10 @@ def generate(prop, seed, tier):
             case['near_one_m'] = [g.randrange(6, 15) for _ in range(n)]    # Log semiring: diagonal log-weights -10^-m
         k = g.choice([None, None, 1, 2, 3])
         b = gen_matrix(g, n, k or 1, 'mixed')
+        if regime == 'cycle' and g.random() < 0.5:
+            # a single source: everything else is reached only through the whole chain
+            src = g.randrange(n)
+            b = [[(v if v else 0.5) if i == src else 0.0 for v in r] for i, r in enumerate(b)]
         if g.random() < 0.2:
             b = [[0.0] * len(r) for r in b]
         elif g.random() < 0.25:
@@ -122,6 +126,17 @@ def generate(prop, seed, tier):
             f_ = g.choice([2, 2, 3])
             case['T'] = [['sum', 1, 1] for _ in range(f_)]
             case['pat']['freeform'] = [[g.randrange(5) for _ in range(f_)] for _ in range(3)]
+            if g.random() < 0.3:
+                # b supported on a diagonal (one shared axis in every position), a's rows a shifted copy of its columns with one
+                # position pinned: the solution's pattern has to grow over several steps, splitting the shared axis
+                ax = [2, 3, 4]
+                g.shuffle(ax)
+                cols = [ax[i % 3] for i in range(f_)]
+                rows = cols[1:] + cols[:1]
+                rows[g.randrange(f_)] = g.choice([0, 1])
+                if g.random() < 0.5:
+                    rows, cols = cols, rows
+                case['pat']['freeform'] = [rows, cols, [ax[0]] * f_]
         case['vals'] = g.randrange(1 << 30)
     else:
         nk = g.randrange(1, 5)
